@@ -352,6 +352,51 @@ func c09Units(ctx *core.Ctx) []core.Unit {
 		}
 		r.Sample(map[string]interface{}{"history": "5 calls over the same points/scalars slices, content replaced between calls, one element doubled in place"})
 	}})
+	us = append(us, core.Unit{Name: "size histories: for each task count, sizes 1024 down to 1 and up again through one process", Run: func(ctx *core.Ctx, r *core.Result) {
+		needRef()
+		c := conf()
+		sizes := []int{1024, 512, 256, 128, 64, 33, 32, 8, 3, 1, 3, 8, 32, 33, 64, 128, 256, 512, 1024, 256, 1024, 255}
+		// the expected sums once per size (reference bucket MSM)
+		want := map[int]ref.Pt{}
+		mk := func(n int) ([]banderwagon.Element, []fr.Element, []ref.Pt, []*big.Int) {
+			pts := make([]banderwagon.Element, n)
+			sc := make([]fr.Element, n)
+			rp := make([]ref.Pt, n)
+			ss := make([]*big.Int, n)
+			for i := 0; i < n; i++ {
+				k := (i*5 + 1) % 256
+				pts[i], rp[i] = c.SRS[k], ref.SRS()[k]
+				ss[i] = msmScalar(ctx.Seed, i%97, 0)
+				sc[i] = frFromBig(ss[i])
+			}
+			return pts, sc, rp, ss
+		}
+		for _, nb := range []int{0, 1, 2, 16, 64, 128, 256, 1024} {
+			for step, n := range sizes {
+				pts, sc, rp, ss := mk(n)
+				w, ok := want[n]
+				if !ok {
+					w = ref.MSMBucket(rp, ss)
+					want[n] = w
+				}
+				in := fmt.Sprintf("NbTasks=%d, call #%d of the size history %v: n=%d", nb, step+1, sizes, n)
+				var e banderwagon.Element
+				var err error
+				if !timed(r, "c09.panic", "banderwagon.Element.MultiExp", in, func() {
+					_, err = e.MultiExp(pts, sc, banderwagon.MultiExpConfig{NbTasks: nb, ScalarsMont: true})
+				}) {
+					return
+				}
+				r.Evals++
+				r.Nontrivial++
+				if err != nil {
+					vio(r, "c09.msm", "banderwagon.Element.MultiExp", in, "a result", err.Error())
+				} else if msg := validSame(&e, w); msg != "" {
+					vio(r, "c09.history", "banderwagon.Element.MultiExp", in, affStr(w), msg)
+				}
+			}
+		}
+	}})
 	// (b) internal entry
 	cs := []int{4, 5, 6, 7, 8, 9, 10, 11, 12, 13, 14, 15, 16}
 	if ctx.Thorough() {
